@@ -411,7 +411,21 @@ def _fresh_context(prog, M, T, f, fc, call, S):
                     or a in RAW_METHODS + ("remove", "clear"):
                 return None
     ev = StrEval(prog, T)
-    v = ev.eval(val, fc, {})
+    # single-assignment locals the template may be held in (`xml = f"..."; sp = parse_xml(xml)`)
+    cnt_ = {}
+    for n in walk_own(f.node):
+        if isinstance(n, ast.Assign) and len(n.targets) == 1 and isinstance(n.targets[0], ast.Name):
+            cnt_[n.targets[0].id] = cnt_.get(n.targets[0].id, 0) + 1
+    env_ = {}
+    for n in sorted((x for x in walk_own(f.node) if isinstance(x, ast.Assign) and len(x.targets) == 1 and isinstance(x.targets[0], ast.Name)
+                     and cnt_[x.targets[0].id] == 1 and x is not assigns[0] and x.lineno < assigns[0].lineno), key=lambda x: x.lineno):
+        if isinstance(n.value, (ast.JoinedStr, ast.Constant, ast.BinOp)) or (isinstance(n.value, ast.Call) and isinstance(n.value.func, ast.Attribute)
+                                                                          and n.value.func.attr == "format"):
+            try:
+                env_[n.targets[0].id] = ev.eval(n.value, fc, env_)
+            except Exception:  # noqa: BLE001
+                pass
+    v = ev.eval(val, fc, env_)
     tmpl = None
     if isinstance(v, tuple) and v and v[0] == "parsed" and isinstance(v[1], AS):
         tmpl = v[1]
